@@ -541,7 +541,7 @@ func pairSweep(t *testing.T) {
 func TestProp(t *testing.T) {
 	defer pbt.Recover(t)
 	takeSnapshot()
-	pbt.Describe("entries: exhaustive over every registered name and alias (listing hook) and every capability field; lookup-pairs: exhaustive ordered pairs of variant lookups per base; histories: rapid lookup histories (1-6 lookups over registered names, their -color/-88color/-256color/-truecolor variants, unknown names and garbage, each under an environment COLORTERM x TCELL_TRUECOLOR), every result deep-compared with a pure model of the documented synthesis applied to an immutable snapshot of the database (history independence), registry restored between cases; screens: Colors() of an initialised screen is 2^24 exactly when direct colour is on. Non-trivial = history with a synthesized/environment-dependent lookup followed by another lookup; distinct = hash of the case.",
+	pbt.Describe("entries: exhaustive over every registered name and alias (listing hook) and every capability field; lookup-pairs: exhaustive ordered pairs of variant lookups per base; histories: rapid lookup histories (1-6 lookups over registered names, their -color/-88color/-256color/-truecolor variants, unknown names and garbage, each under an environment COLORTERM x TCELL_TRUECOLOR), every result deep-compared with a pure model of the documented synthesis applied to an immutable snapshot of the database (history independence), registry restored between cases; screens: Colors() of an initialised screen is 2^24 exactly when direct colour is on; screens-shared: a screen built on the very entry the database handed out (as NewTerminfoScreen does), run under LINES/COLUMNS values with mode calls, drawing and a Suspend/Resume cycle, leaves every later lookup equal to the snapshot model. Non-trivial = history with a synthesized/environment-dependent lookup followed by another lookup; distinct = hash of the case.",
 		"harness/internal/tiref parser is the well-formedness definition; harness/internal/vt SGR decoder defines which palette entry a colour string selects",
 		"which bases a -256color / -truecolor name may be synthesized from (-88color/-color, resp. -256color/-88color/-color/bare) is taken from the library's documented behaviour",
 		"the package-level terminfo.LookupTerminfo is exercised (the root-package fallback to infocmp depends on the host's terminfo database and is not part of the built-in database)")
@@ -550,6 +550,11 @@ func TestProp(t *testing.T) {
 	pbt.Check(t, "histories", pbt.Pick(30000, 300000), pbt.Spec[HistCase]{Gen: genHist, Prop: histProp, NonTrivial: histNonTrivial, Classes: histClasses})
 	pbt.Check(t, "screens", pbt.Pick(400, 3000), pbt.Spec[ScreenCase]{Gen: genScreen, Prop: screenProp,
 		NonTrivial: func(c ScreenCase) bool { _, ok := modelLookup(c.Name, c.Env); return ok }})
+	pbt.Check(t, "screens-shared", pbt.Pick(1500, 12000), pbt.Spec[SharedCase]{Gen: genShared, Prop: sharedProp,
+		NonTrivial: func(c SharedCase) bool {
+			_, ok := modelLookup(c.Name, c.Env)
+			return ok && (c.Lines != "" || c.Columns != "" || len(c.Calls) > 0)
+		}})
 	restore()
 	setenv(Env{})
 }
